@@ -171,6 +171,11 @@ pub(crate) fn net_connect(addr: &str) -> Option<Option<MemPipe>> {
 struct ChoiceState {
     script: VecDeque<usize>,
     log: Vec<(usize, usize)>,
+    /// Per logged choice point: (group number, group is a shuffle). All draws of one `shuffle`
+    /// call form one group; a plain `choose` is a group of its own.
+    groups: Vec<(usize, bool)>,
+    next_group: usize,
+    in_shuffle: bool,
 }
 
 /// Digits consumed, in order, by the next `choose` calls on this thread (missing digits = 0).
@@ -179,7 +184,16 @@ pub fn set_choices(script: Vec<usize>) {
         let mut c = c.borrow_mut();
         c.script = script.into();
         c.log.clear();
+        c.groups.clear();
+        c.next_group = 0;
+        c.in_shuffle = false;
     });
+}
+
+/// (group number, is_shuffle) of every choice point passed since the last `set_choices`; call
+/// before `take_choice_log`.
+pub fn take_choice_groups() -> Vec<(usize, bool)> {
+    CHOICES.with(|c| std::mem::take(&mut c.borrow_mut().groups))
 }
 
 /// (arity, digit taken) of every choice point passed since the last `set_choices`.
@@ -197,6 +211,15 @@ pub fn choose(n: usize) -> usize {
         let digit = c.script.pop_front().unwrap_or(0);
         assert!(digit < n, "scripted choice {} out of range 0..{}", digit, n);
         c.log.push((n, digit));
+        let group = match c.in_shuffle {
+            true => c.next_group,
+            false => {
+                c.next_group += 1;
+                c.next_group - 1
+            }
+        };
+        let in_shuffle = c.in_shuffle;
+        c.groups.push((group, in_shuffle));
         digit
     })
 }
@@ -204,10 +227,16 @@ pub fn choose(n: usize) -> usize {
 /// Fisher–Yates with every draw taken from `choose`; all-zero digits give the identity, and every
 /// permutation is reachable by exactly one digit vector.
 pub fn shuffle<T>(slice: &mut [T]) {
+    CHOICES.with(|c| c.borrow_mut().in_shuffle = true);
     for i in (1..slice.len()).rev() {
         let j = i - choose(i + 1);
         slice.swap(i, j);
     }
+    CHOICES.with(|c| {
+        let mut c = c.borrow_mut();
+        c.in_shuffle = false;
+        c.next_group += 1;
+    });
 }
 
 // ---------------------------------------------------------------------------------------------
